@@ -20,7 +20,7 @@ PROPERTY = "C10"
 REPLAY_FUNC = "run_history"
 RULE = ("E2 BFS: histories of <= D operations from the alphabet {portfolio set-up on grid i with price set j (4x2), stand-alone asset "
         "set-up (3 assets x 2 grids), set-up with the grid set previously (2), split set-up (2), optimise + extract_output, to_json, "
-        "flat portfolio sharing the structured asset's inner assets (2), cost samples (2), make_slp (thorough)}; state = canonical hash of all "
+        "flat portfolio sharing the structured asset's inner assets (2), cost samples (2), set-up with a user-supplied fix_time_window dictionary (2), make_slp (thorough)}; state = canonical hash of all "
         "objects, grids (incl. cached restricted grid and discount factors) and user data; distinct = distinct states; "
         "non-trivial = transition whose call returned a problem that was compared with the fresh-object problem")
 ASSUMPTIONS = ["EAO keeps state only in the objects hashed by mc/history.py (module dictionaries are hashed before/after each run and must not change)",
@@ -44,7 +44,7 @@ def alphabet(tier):
     for k in ("con", "sto", "st"):
         for gi in (0, 2):
             ops.append(("A", k, gi))
-    ops += [("SP", 0), ("SP", 1), ("SPLIT", 0), ("SPLIT", 1), ("OPT",), ("JSON",), ("FLAT", 0), ("FLAT", 1), ("CS", 0), ("CS", 1), ("ARR", 0), ("ARR", 2)]
+    ops += [("SP", 0), ("SP", 1), ("SPLIT", 0), ("SPLIT", 1), ("OPT",), ("JSON",), ("FLAT", 0), ("FLAT", 1), ("CS", 0), ("CS", 1), ("ARR", 0), ("ARR", 2), ("FIX", 0), ("FIX", 1)]
     if tier == "thorough":
         ops += [("SLP", 0), ("SLP", 1)]
     return ops
@@ -91,6 +91,10 @@ class World:
         self.arr4 = SimpleContract(name="arr4", nodes=n1, price="q", min_cap=-self.cap4, max_cap=self.cap4)
         self.pf_arr = Portfolio([SimpleContract(name="am", nodes=n1, price="p", min_cap=-5.0, max_cap=5.0), self.arr4])
         self.flat = Portfolio([self.fm, self.isto, self.itr])
+        # a user-supplied dictionary fixing the first steps to given values (date + full-length array), reused between calls
+        self.fw = dict(I=T("2021-01-02 06:00"), x=np.round(np.linspace(-1.0, 1.0, 16), 3))
+        self.pf_fix = Portfolio([SimpleContract(name="fa", nodes=n1, price="p", min_cap=-5.0, max_cap=5.0),
+                                 SimpleContract(name="fb", nodes=n1, price="q", min_cap=-5.0, max_cap=5.0)])
         self.grids = []
         for g in GRIDS:
             self.grids.append(Timegrid(T(g["start"]), T(g["end"]), freq=g["freq"], timezone=g["tz"]))
@@ -110,7 +114,7 @@ class World:
 
     def objects(self):
         return dict(con=self.con, sto=self.sto, tr=self.tr, mk2=self.mk2, isto=self.isto, itr=self.itr, st=self.st, pf=self.pf,
-                    fm=self.fm, flat=self.flat, capd=self.capd, taked=self.taked, P=self.P, ob=self.ob, late=self.late, pl=self.pl, cap_arr=self.cap_arr, cap4=self.cap4, arr4=self.arr4, pf_arr=self.pf_arr, xtr=self.xtr, xtake=self.xtake, orders=self.orders, orders_df=self.orders_df,
+                    fm=self.fm, flat=self.flat, capd=self.capd, taked=self.taked, P=self.P, ob=self.ob, late=self.late, pl=self.pl, cap_arr=self.cap_arr, cap4=self.cap4, arr4=self.arr4, pf_arr=self.pf_arr, xtr=self.xtr, xtake=self.xtake, orders=self.orders, orders_df=self.orders_df, fw=self.fw, pf_fix=self.pf_fix,
                     ctx=(self.cur, self.last, None if self.last_op is None else "op"))
 
     def key(self):
@@ -174,6 +178,10 @@ class World:
         if kind == "ARR":
             _, gi = op
             prob = self.pf_arr.setup_optim_problem(self.P[0][gi], self.grids[gi])
+            return ("problem", H.problem_hash(prob))
+        if kind == "FIX":
+            _, gi = op
+            prob = self.pf_fix.setup_optim_problem(self.P[0][gi], self.grids[gi], fix_time_window=self.fw)
             return ("problem", H.problem_hash(prob))
         if kind == "FLAT":
             _, gi = op
